@@ -5,28 +5,125 @@ From M Require Framing2.
 From M Require Framing3.
 From M Require Framing4.
 From M Require Tie.
+From M Require FpLen.
+From M Require BufModel.
 From M Require Framing2.
 From M Require Framing3.
+From M Require GFmt.
 From M Require ParserModel.
 Import ListNotations.
 
-Definition C06_framing := @Framing2.framing.
+Module T_framing. Import Framing2. Local Open Scope bool_scope. Local Open Scope Z_scope.
+Import ParserModel. Local Open Scope Z_scope.
+Theorem C06_framing :
+  forall c len d,
+  table_simple c ->
+  let c' := fst (scpi_parse c len d) in
+  let units := filter nonempty (msg_items (S (Z.to_nat len)) (upd_out c true 0 (arb_rem c)) 0 len None true d) in
+  W c' = W c ++ join [59%N] (map (join [44%N]) units) ++ (if is_nil units then [] else [13;10]%N) /\
+  Fl c' = Fl c + (if is_nil units then 0 else 1).
+Proof. exact (@Framing2.framing). Qed.
+End T_framing.
+Definition C06_framing := @T_framing.C06_framing.
 
-Definition C06_message_framing := @Framing2.message_framing.
+Module T_message_framing. Import Framing2. Local Open Scope bool_scope. Local Open Scope Z_scope.
+Import ParserModel. Local Open Scope Z_scope.
+Theorem C06_message_framing :
+  forall c len d,
+  table_simple c ->
+  let c' := fst (scpi_parse c len d) in
+  let units := msg_items (S (Z.to_nat len)) (upd_out c true 0 (arb_rem c)) 0 len None true d in
+  W c' = W c ++ frame_units true units ++ (if responded units then [13;10]%N else []) /\
+  Fl c' = Fl c + (if responded units then 1 else 0) /\
+  first_output c' = true.
+Proof. exact (@Framing2.message_framing). Qed.
+End T_message_framing.
+Definition C06_message_framing := @T_message_framing.C06_message_framing.
 
-Definition C06_unit_framing := @Framing2.unit_framing.
+Module T_unit_framing. Import Framing2. Local Open Scope bool_scope. Local Open Scope Z_scope.
+Import ParserModel. Local Open Scope Z_scope.
+Theorem C06_unit_framing :
+  forall c d,
+  cur_simple c ->
+  let c' := fst (process_command c d) in let its := unit_items c d in
+  W c' = W c ++ render (first_output c) 0 its /\ Fl c' = Fl c /\
+  first_output c' = first_output c && is_nil its /\ cmds c' = cmds c.
+Proof. exact (@Framing2.unit_framing). Qed.
+End T_unit_framing.
+Definition C06_unit_framing := @T_unit_framing.C06_unit_framing.
 
-Definition C06_script_framing := @Framing2.script_framing.
+Module T_script_framing. Import Framing2. Local Open Scope bool_scope. Local Open Scope Z_scope.
+Import ParserModel. Local Open Scope Z_scope.
+Theorem C06_script_framing :
+  forall s,
+  forallb simple_op s = true -> forall c d,
+  let c' := fst (run_script s c d) in let its := items_run s c d in
+  first_output c' = first_output c /\ output_count c' = output_count c + Z.of_nat (length its) /\
+  W c' = W c ++ render (first_output c) (output_count c) its /\ Fl c' = Fl c.
+Proof. exact (@Framing2.script_framing). Qed.
+End T_script_framing.
+Definition C06_script_framing := @T_script_framing.C06_script_framing.
 
-Definition C06_frame_closed := @Framing2.frame_closed.
+Module T_frame_closed. Import Framing2. Local Open Scope bool_scope. Local Open Scope Z_scope.
+Import ParserModel. Local Open Scope Z_scope.
+Theorem C06_frame_closed :
+  forall units,
+  frame_units true units = join [59%N] (map (join [44%N]) (filter nonempty units)).
+Proof. exact (@Framing2.frame_closed). Qed.
+End T_frame_closed.
+Definition C06_frame_closed := @T_frame_closed.C06_frame_closed.
 
-Definition C06_script_framing_streamed := @Framing3.script_framing_streamed.
+Module T_script_framing_streamed. Import Framing3. Local Open Scope bool_scope. Local Open Scope Z_scope.
+Import ParserModel Framing2. Local Open Scope Z_scope.
+Theorem C06_script_framing_streamed :
+  forall l,
+  Forall atom_ok l -> forall c d,
+  let c' := fst (run_script (flat_map flat l) c d) in let its := aitems l c d in
+  first_output c' = first_output c /\ output_count c' = output_count c + Z.of_nat (length its) /\
+  W c' = W c ++ render (first_output c) (output_count c) its /\ Fl c' = Fl c.
+Proof. exact (@Framing3.script_framing_streamed). Qed.
+End T_script_framing_streamed.
+Definition C06_script_framing_streamed := @T_script_framing_streamed.C06_script_framing_streamed.
 
 Definition C06_framing_g := @Framing4.framing_g.
 
 Definition C06_framing_streamed := @Framing4.framing_streamed.
 
-Definition C06_tie_line_ending := @Tie.tie_line_ending.
+Module T_tie_line_ending. Import Tie. Local Open Scope bool_scope. Local Open Scope Z_scope.
+Local Open Scope Z_scope.
+Theorem C06_tie_line_ending :
+  Generated.gen_line_ending = [13; 10]%N.
+Proof. exact (@Tie.tie_line_ending). Qed.
+End T_tie_line_ending.
+Definition C06_tie_line_ending := @T_tie_line_ending.C06_tie_line_ending.
 
-Definition C06_array_steps := @Framing3.array_steps.
+Module T_array_steps. Import Framing3. Local Open Scope bool_scope. Local Open Scope Z_scope.
+Import ParserModel Framing2. Local Open Scope Z_scope.
+Local Open Scope Z_scope.
+Theorem C06_array_steps :
+  forall c size fmt vals,
+  size_ok size -> Steps c (result_array c size fmt vals) (arr_items size fmt vals).
+Proof. exact (@Framing3.array_steps). Qed.
+End T_array_steps.
+Definition C06_array_steps := @T_array_steps.C06_array_steps.
+
+Module T_tie_widths. Import Tie. Local Open Scope bool_scope. Local Open Scope Z_scope.
+Local Open Scope Z_scope.
+Theorem C06_tie_widths :
+  match Generated.gen_widths with
+  | [oc; ic; wr; rd; cnt; sz] => 32 <= oc /\ 32 <= ic /\ 16 <= wr /\ 16 <= rd /\ 16 <= cnt /\ 16 <= sz
+  | _ => False end.
+Proof. exact (@Tie.tie_widths). Qed.
+End T_tie_widths.
+Definition C06_tie_widths := @T_tie_widths.C06_tie_widths.
+
+Module T_result_double_whole. Import FpLen. Local Open Scope bool_scope. Local Open Scope Z_scope.
+Import GFmt BufModel. Local Open Scope Z_scope.
+Local Open Scope Z_scope.
+Theorem C06_result_double_whole :
+  forall bits,
+  double_to_str bits 32 = (fmt_double 15 bits, true, Z.of_nat (length (fmt_double 15 bits)), false).
+Proof. exact (@FpLen.result_double_whole). Qed.
+End T_result_double_whole.
+Definition C06_result_double_whole := @T_result_double_whole.C06_result_double_whole.
 
